@@ -883,6 +883,37 @@ def targeted_cases2(ctx):
             yield "inorder-asc", [0] + ops
 
 
+def widen(ctx, disagreements):
+    """model and implementation differ (or a proof broke) but no history of this run violates the
+    property: look further - every prefix of the disagreeing histories, then more random ones"""
+    import random
+
+    found = []
+    for d in disagreements[:20]:
+        case = d.get("case")
+        if not isinstance(case, list) or not case or case[0] != 0:
+            continue
+        for n in range(2, len(case)):
+            f = oracle(ctx, "widen-prefix", case[: n + 1], None)
+            if f:
+                f[0]["case"] = case[: n + 1]
+                found.append(f[0])
+                break
+        if found:
+            return found
+    rng = random.Random(ctx.seed * 7919 + 13)
+    for i in range(ctx.n(300, 1500)):
+        t = rng.choice([3, 3, 4, 5, 7])
+        c = gen_history(rng, t, rng.choice([60, 200, 500]), rng.choice([10, 30, 80, 300]), set_kind=rng.random() < 0.15)
+        f = oracle(ctx, "widen-random", c, None)
+        if f:
+            f[0]["case"] = c
+            found.append(f[0])
+            if len(found) >= 3:
+                break
+    return found
+
+
 def cases(ctx):
     rng = ctx.rng
     hist = []
